@@ -242,6 +242,9 @@ def run(ctx):
                   "sort arguments are " + str(a))
     ls = loop_over(pw, "files")
     ctx.check(len(ls) == 1 and forward_iteration(pw, ls[0]), "startup-load-in-order", "loop-shape", pw.loc(), "files are added in list order", "files are not added in list order")
+    # requests reach the main loop in the order the watcher made them (add v1, remove, add v2 must end on the add)
+    from .C13 import handoff_queue_fifo
+    handoff_queue_fifo(ctx)
     # the inotify read buffer holds at least one maximal event (header + NAME_MAX + 1): otherwise read(2) fails with EINVAL for a
     # long file name, processDropInWatcher returns 1 and the OCHECK in run() aborts the daemon
     pdw = ctx.fn1("Oomd::FsDropInService::processDropInWatcher")
